@@ -394,6 +394,11 @@ def parseMessage(rawMessage, oobFDs):
 
     m.serial = hval[5]
 
+    flags = hval[2]
+
+    m.expectReply = not (flags & 0x1)
+    m.autoStart = not (flags & 0x2)
+
     for code, v in hval[6]:
         try:
             setattr(m, _hcode[code], v)
